@@ -15,6 +15,7 @@ import (
 	"github.com/pokt-network/pocket-core/x/auth/util"
 	pc "github.com/pokt-network/pocket-core/x/pocketcore/types"
 	"github.com/pokt-network/pocket-core/x/pocketcore/types/vsync"
+	dbm "github.com/tendermint/tm-db"
 
 	"verif/internal/ev"
 	"verif/internal/sched"
@@ -42,8 +43,27 @@ func c34Scenarios() []c34Scenario {
 		{"relay-vs-seal", []c34Thread{{"relay", 2}, {"seal", 0}}, 100000},
 		{"two-relays-vs-seal", []c34Thread{{"relay", 2}, {"relay", 3}, {"seal", 0}}, 100000},
 		{"identical-pair-and-distinct", []c34Thread{{"relay", 1}, {"relay", 1}, {"relay", 2}}, 100000},
+		// the node's periodic flush of the evidence cache to its database (cache entries are evicted one by one and
+		// written) against a relay that is already part of the stored evidence, and against a new one
+		{"stored-relay-again-vs-flush", []c34Thread{{"relay", 902}, {"flush", 0}}, 100000},
+		{"new-relay-vs-flush", []c34Thread{{"relay", 2}, {"flush", 0}}, 100000},
 	}
 }
+
+// schedDB makes every access of the evidence database a scheduling point (the goroutine stays enabled): the steps of a
+// critical section that moves entries between the cache and the database can then be interleaved with code that reads
+// the store without taking its lock.
+type schedDB struct{ dbm.DB }
+
+func (d schedDB) yield() {
+	if sched.S.Active() {
+		sched.S.Yield()
+	}
+}
+func (d schedDB) Get(k []byte) ([]byte, error) { d.yield(); return d.DB.Get(k) }
+func (d schedDB) Has(k []byte) (bool, error)   { d.yield(); return d.DB.Has(k) }
+func (d schedDB) Set(k, v []byte) error        { d.yield(); return d.DB.Set(k, v) }
+func (d schedDB) Delete(k []byte) error        { d.yield(); return d.DB.Delete(k) }
 
 func init() {
 	vsync.Active = sched.S.Active
@@ -68,9 +88,12 @@ func init() {
 		store := node.EvidenceStore
 		preload := false
 		for _, t := range sc.Threads {
-			if t.Kind == "seal" {
+			if t.Kind == "seal" || t.Kind == "flush" {
 				preload = true
 			}
+		}
+		if _, wrapped := store.DB.(schedDB); !wrapped {
+			store.DB = schedDB{store.DB}
 		}
 		sessArg := "cur"
 		if preload {
@@ -119,6 +142,14 @@ func init() {
 						}
 						outs[i].ok = resp != nil && resp.Signature != ""
 					})
+				case "flush":
+					fns = append(fns, func() {
+						if err := store.FlushToDB(); err != nil {
+							outs[i].err = err.Error()
+							return
+						}
+						outs[i].ok = true
+					})
 				case "seal":
 					fns = append(fns, func() {
 						// the real claim generation of the node (runs after the session has ended); the transaction
@@ -142,6 +173,8 @@ func init() {
 				for i, t := range sc.Threads {
 					o := outs[i]
 					switch {
+					case t.Kind == "flush":
+						ss = append(ss, fmt.Sprintf("T%d flush of the evidence cache: ok=%v %s", i, o.ok, o.err))
 					case t.Kind == "seal":
 						ss = append(ss, fmt.Sprintf("T%d seal: claimed %d relays", i, o.claimed))
 					case o.ok:
